@@ -56,6 +56,9 @@ EDITS = [
                                           ('impl fmt::Display for Header<IndexSignatureTag> {', 'fn pad_to_8(size: u32) -> u32 {\n    (8 - (size % 8)) % 8\n}\n\nimpl fmt::Display for Header<IndexSignatureTag> {')]),
     ('C03', 'src/rpm/package.rs', [('            if sha256 != header_digest_sha256 {', '            if !same_text(sha256, &header_digest_sha256) {'),
                                    ('#[derive(Clone, Debug, PartialEq)]\npub struct PackageMetadata {', 'fn same_text(declared: &str, computed: &str) -> bool {\n    declared.len() == computed.len() && declared.as_bytes().iter().zip(computed.as_bytes().iter()).all(|(a, b)| a == b)\n}\n\n#[derive(Clone, Debug, PartialEq)]\npub struct PackageMetadata {')]),
+    # other ways of writing the same thing that the rules R47 / the cpio block must accept
+    ('C15', 'src/version.rs', [("        let (epoch, vr) = evr.split_once(':').unwrap_or((\"\", evr));", "        let (epoch, vr) = match evr.find(':') {\n            Some(i) => (&evr[..i], &evr[i + 1..]),\n            None => (\"\", evr),\n        };")]),
+    ('C11', 'src/rpm/builder.rs', [('                    .ino(ino_index)\n', '                    .ino(ino_index)\n                    .mtime(mtime.into())\n')]),
 ]
 if len(sys.argv) > 2 and sys.argv[1] == '--last':
     EDITS = EDITS[-int(sys.argv[2]):]
